@@ -25,7 +25,7 @@ func init() {
 // Each entry states why the statement does not quantify over the case.
 var reviewedDerefs = map[string]string{
 	"(pkg/cloudprovider/aws.Builder).Build/Client":                    "embedded *client.Client of an AWS service client just built by autoscaling.New, which always sets it (provider rebuild path)",
-	"(*pkg/controller.Controller).RunOnce/lookup":                     "NewController stores an entry under every configured group's Name and the map is never modified afterwards (C12.R1/R3/R4), so the lookup by the same Name cannot miss",
+	"<group-step>/lookup":                                             "NewController stores an entry under every configured group's Name and the map is never modified afterwards (C12.R1/R3/R4), so the lookup by the same Name cannot miss",
 	"(*pkg/cloudprovider/aws.Instance).InstantiationTime/ec2Instance": "set from a length-checked successful DescribeInstances reply when err == nil",
 	"(*pkg/controller.Controller).calculateNewNodeMetrics/Node":       "entries whose node is nil are removed when the node-info map is built (CreateNodeNameToInfoMap deletes incomplete infos)",
 }
@@ -499,7 +499,11 @@ func (ck *Check) derefSite(ctx *Ctx, in ssa.Instruction, mkKey func(string) stri
 			}
 		}
 	}
-	if why, ok := reviewedDerefs[funcID(fn)+"/"+fieldName]; ok {
+	where := funcID(fn)
+	if fn == ck.A.GroupStep {
+		where = "<group-step>" // RunOnce, or the per-group helper it calls in its loop
+	}
+	if why, ok := reviewedDerefs[where+"/"+fieldName]; ok {
 		// a reviewed field of a repo structure is backed by its stores: whatever is stored into it is
 		// present under the condition it is stored under (an entry whose reason stopped being true is
 		// reported, not trusted)
@@ -581,9 +585,10 @@ func (ck *Check) stopCensus(rule string, fns []*ssa.Function) {
 		}
 		// the construct that fails is where the error comes from, also when it travels through a
 		// helper of RunOnce (a φ, or the return sites of a repo function called here)
+		originUnderTypeTest = map[string]bool{}
 		for _, org := range errorOrigins(ck.P, ctx, r.Results[0], 0) {
 			key := "RunOnce/return:" + returnShape(org)
-			if allowed {
+			if allowed || originUnderTypeTest[org.Key()] {
 				ck.ok(rule, key, ck.P.instrPos(r), funcID(fn), "RunOnce returns an error only for *NodeNotInNodeGroup", "under the type test")
 				continue
 			}
@@ -1056,6 +1061,14 @@ func isExitCallee(f *ssa.Function) bool {
 
 // errorOrigins: the terms an error value can have come from, looking through φs and through the
 // return sites of statically called repo functions (depth ≤ 3); nil constants are dropped.
+// originUnderTypeTest: for an error origin reached through helpers' returns, whether every such
+// return was taken under a type test for *NodeNotInNodeGroup (filled by errorOrigins).
+var originUnderTypeTest = map[string]bool{}
+
+// typedAbove: depth of helper returns, on the way down to the origin being looked at, that are
+// taken only under the type test (errorOrigins' recursion state).
+var typedAbove = 0
+
 func errorOrigins(p *Prog, ctx *Ctx, v ssa.Value, depth int) []*Term {
 	if k, ok := v.(*ssa.Const); ok && k.IsNil() {
 		return nil
@@ -1104,7 +1117,25 @@ func errorOrigins(p *Prog, ctx *Ctx, v ssa.Value, depth int) []*Term {
 						if !ok || idx >= len(r.Results) {
 							continue
 						}
-						for _, o := range errorOrigins(p, ch, r.Results[idx], depth+1) {
+						// a return of the helper taken only under "the error is *NodeNotInNodeGroup"
+						typed := false
+						hpc := ch.BlockPC(b)
+						rvT := ch.Term(r.Results[idx])
+						for _, at := range hpc.Atoms() {
+							if at.Kind == "extract" && at.Name == "1" && at.Args[0].Kind == "typeassert" && strings.HasSuffix(at.Args[0].Name, "NodeNotInNodeGroup") && len(at.Args[0].Args) == 1 && at.Args[0].Args[0].Key() == rvT.Key() {
+								if imp, _, _ := Entails(hpc, Atom(at)); imp {
+									typed = true
+								}
+							}
+						}
+						if typed {
+							typedAbove++
+						}
+						sub := errorOrigins(p, ch, r.Results[idx], depth+1)
+						if typed {
+							typedAbove--
+						}
+						for _, o := range sub {
 							if !seen[o.Key()] {
 								seen[o.Key()] = true
 								out = append(out, o)
@@ -1118,7 +1149,14 @@ func errorOrigins(p *Prog, ctx *Ctx, v ssa.Value, depth int) []*Term {
 			}
 		}
 	}
-	return []*Term{ctx.Term(v)}
+	// an origin: allowed only if every way down to it passed a return under the type test
+	t := ctx.Term(v)
+	if prev, known := originUnderTypeTest[t.Key()]; known {
+		originUnderTypeTest[t.Key()] = prev && typedAbove > 0
+	} else {
+		originUnderTypeTest[t.Key()] = typedAbove > 0
+	}
+	return []*Term{t}
 }
 
 // isTimerChan: v is the channel of a one-shot timer — *(&timer.C) with timer = time.NewTimer(…),
